@@ -7,7 +7,7 @@ CONSTANTS
   SessIdx <- PairIdx
   MaxForge = 0
   MaxSend = 3
-  Window = 2
+  Window = 1000
   Weak = {}
   MaxSteps = 0
 VIEW view
